@@ -69,6 +69,8 @@ def main():
     ok = True
     K.build_generator()
     K.build_gendrv()
+    from . import lexsym
+    lexsym.build_hirdump()
     ok &= selftest_cnf()
     print("[setup] done in %.1fs: %s" % (time.time() - t0, "OK" if ok else "FAILED"))
     return 0 if ok else 1
